@@ -175,22 +175,46 @@ def engine_scenario(sh: Shard, seed, idx):
             req = RecHandler(f"req{rep}", [b"RP%d" % rep], log, remove_on=b"RP%d" % rep, send_bytes=tag, timeout=T, retry_count=N, on_retry_failed=GeckoUdpProtocolHandler._default_retry_failed_handler)
             sock.add_receive_handler(req)
             base = len(sock._socket.sent)
+            # exact ordering monitor: when the answer was handled, when transmissions were queued
+            t_handled, qs = [], []
+            orig_handle, orig_qs = req.handle, sock.queue_send
+
+            def handle_tap(b, snd, _o=orig_handle, _l=t_handled):
+                _l.append(s.now)
+                return _o(b, snd)
+
+            def qs_tap(h_, d_=None, _o=orig_qs, _l=qs):
+                _l.append((s.now, h_))
+                return _o(h_, d_)
+
+            req.handle, sock.queue_send = handle_tap, qs_tap
             sock.queue_send(req, peer.addr)
             t0 = s.now
             answered = False
+            # the answer may also arrive late: about one timeout after the transmission it answers
+            late = answer_at is not None and r.random() < 0.45
             deadline = (N + 2) * (T + 0.2) + 2
             def tx():
                 return [x for x in sock._socket.sent[base:] if x[1] == tag]
             while s.now - t0 < deadline:
                 if answer_at is not None and not answered and len(tx()) >= answer_at:
-                    peer.sendto(b"RP%d" % rep, sock._socket.addr)
+                    if late:
+                        at_ = tx()[answer_at - 1][0] + T + r.uniform(-0.045, 0.08)
+                        s.at(max(s.now, at_), lambda rep=rep: peer.sendto(b"RP%d" % rep, sock._socket.addr))
+                        sh.count("answers_arriving_about_one_timeout_late")
+                    else:
+                        peer.sendto(b"RP%d" % rep, sock._socket.addr)
                     answered = True
                 if req not in sock._receive_handlers:
                     break
                 s.sleep(0.01)
             s.sleep(T + 0.3)
+            sock.queue_send = orig_qs
             txs = tx()
             sh.evaluations += 1
+            after = [round(t_ - t_handled[0], 4) for t_, h_ in qs if h_ is req and t_handled and t_ > t_handled[0] + 1e-9]
+            if after:
+                sh.violation("C20:retransmit-after-answer", f"a retransmission of the request (timeout {T}) was queued {after[0]}s after its answer had been handled", {"scenario": label, "timeout": T, "retries": N, "answer_handled_at": round(t_handled[0] - t0, 4), "late_answer": late})
             wit = {"scenario": label, "timeout": T, "retries": N, "answered_at_transmission": answer_at, "transmissions": [round(x[0] - t0, 3) for x in txs]}
             if req in sock._receive_handlers:
                 sh.violation("C20:handler-not-removed", f"request (timeout {T}, {N} retries, answered at {answer_at}) still registered {s.now - t0:.1f}s later", wit)
@@ -199,7 +223,7 @@ def engine_scenario(sh: Shard, seed, idx):
                     sh.violation("C20:retransmissions", f"unanswered request with {N} retries was transmitted {len(txs)} times (expected 1 + {N})", wit)
                 else:
                     sh.count("unanswered_requests_ok")
-            elif T < 0.3:
+            elif T < 0.3 or late:
                 # a timeout shorter than the engine's own latency may already have queued a
                 # retransmission before the answer is processed: only the budget is judged
                 if len(txs) > 1 + N:
